@@ -151,10 +151,12 @@ func (s *StackTraceIterator) Reset() {
 
 func initStackTrace() {
 	StackTraceClass = NewClassWithOptions()
+	StackTraceClass.IncludeMixin(ImmutableCollectionBaseMixin)
 	StdModule.AddConstantString("StackTrace", Ref(StackTraceClass))
 	RegisterNativeClass("Std::StackTrace", "value.StackTraceClass")
 
 	StackTraceIteratorClass = NewClassWithOptions()
+	StackTraceIteratorClass.IncludeMixin(ResettableIteratorBaseMixin)
 	StackTraceClass.AddConstantString("Iterator", Ref(StackTraceIteratorClass))
 	RegisterNativeClass("Std::StackTrace::Iterator", "value.StackTraceIteratorClass")
 }
